@@ -7,9 +7,12 @@
    [flatten] resolves the attributes inherited from <g> and <svg> (and SVG's
    initial values) to one (geometry, paint, font) triple per leaf shape;
    [spec fx fuel] pairs each drawing call, in order, with its geometry and the
-   pen / font in force when it was issued.  fx = false is the code as it is,
-   fx = true the code with the proposed fixes.  [None] = a gridn loop did not
-   end within [fuel] rounds (OutOfFuel), which no theorem treats as success. *)
+   pen / font in force when it was issued.  [fx : fixes] has one switch per
+   recorded defect: [cur] is /repo HEAD (lone-element fix 7a67899 and gridn
+   check 292a02f are in), [all] has every proposed fix, [none] is the code
+   before the fix commits.  [spec all] is the intended meaning.  [None] = a
+   gridn loop did not end within [fuel] rounds (OutOfFuel), which no theorem
+   treats as success. *)
 (* Floats is deliberately not imported before the theorems, so that Print
    Assumptions names the kernel's float primitives with their module prefix. *)
 From Coq Require Import ZArith List String.
@@ -18,52 +21,58 @@ From EvyV Require Import Base Svg SvgProofs.
 From EvyV.Gen Require Import SvgConsts.
 Import ListNotations.
 
-(* ---- the property, full strength, for the model with the proposed fixes ---- *)
-Theorem C19_svg_shows_what_was_drawn_fixed : forall (fuel : nat) (l : list cmd) (st : state),
-  run true fuel pre_init (program l) = Some st ->
-  spec true fuel (program l) = Some (flatten (render true st)).
-Proof. exact shows_what_was_drawn_fixed. Qed.
-Print Assumptions C19_svg_shows_what_was_drawn_fixed.
+(* ---- the model in force (HEAD) ---- *)
+(* Over all histories: the document shows [spec cur], i.e. the intended meaning
+   except for the four remaining local deviations (ellipse y, text paint,
+   baseline names, default family), each refuted below.  The only guard left is
+   the text-paint one: no text pushed alone with an unset stroke colour and a
+   set, non-default fill colour (guard cur checks nothing else: fx_lone is on). *)
+Theorem C19_svg_shows_what_was_drawn : forall (fuel : nat) (l : list cmd) (st : state),
+  run cur fuel pre_init (program l) = Some st ->
+  guard cur fuel pre_init (program l) = true ->
+  spec cur fuel (program l) = Some (flatten (render cur st)).
+Proof. intros fuel l. exact (shows_what_was_drawn cur fuel (program l)). Qed.
+Print Assumptions C19_svg_shows_what_was_drawn.
 
-(* ---- the code as it is: over all histories that satisfy [guard] (no `clear`
-   rectangle / gridn group pushed alone under a non-default pen, no text pushed
-   alone with an unset stroke and a set fill colour), the document shows what
-   [spec false] says: the intended meaning except for four local deviations
-   (ellipse y, text paint, baseline names, default family), each refuted below *)
-Theorem C19_svg_shows_what_was_drawn_asis : forall (fuel : nat) (l : list cmd) (st : state),
-  run false fuel pre_init (program l) = Some st ->
-  guard fuel pre_init (program l) = true ->
-  spec false fuel (program l) = Some (flatten (render false st)).
-Proof. exact shows_what_was_drawn_asis. Qed.
-Print Assumptions C19_svg_shows_what_was_drawn_asis.
-
-(* ---- the code as it is against the INTENDED meaning, with the guards that
-   exclude exactly the defective classes: [guard] and no ellipse / text call ---- *)
+(* the model in force against the INTENDED meaning; the guard excludes exactly
+   the calls the remaining deviations are about: no ellipse, no text *)
 Theorem C19_svg_shows_what_was_drawn_guarded : forall (fuel : nat) (l : list cmd) (st : state),
-  run false fuel pre_init (program l) = Some st ->
-  guard fuel pre_init (program l) = true ->
+  run cur fuel pre_init (program l) = Some st ->
   forallb no_dev l = true ->
-  spec true fuel (program l) = Some (flatten (render false st)).
-Proof. exact shows_what_was_drawn_guarded. Qed.
+  spec all fuel (program l) = Some (flatten (render cur st)).
+Proof. intros fuel l st. exact (shows_what_was_drawn_guarded cur fuel l st eq_refl). Qed.
 Print Assumptions C19_svg_shows_what_was_drawn_guarded.
 
+(* ---- full strength, no guard, for the model with every proposed fix ---- *)
+Theorem C19_svg_shows_what_was_drawn_fixed : forall (fuel : nat) (l : list cmd) (st : state),
+  run all fuel pre_init (program l) = Some st ->
+  spec all fuel (program l) = Some (flatten (render all st)).
+Proof. intros fuel l. exact (shows_what_was_drawn_fixed fuel (program l)). Qed.
+Print Assumptions C19_svg_shows_what_was_drawn_fixed.
+
+(* ---- regression: the code before 7a67899 needed the lone clear / lone grid guard ---- *)
+Theorem C19_svg_shows_what_was_drawn_before_fix : forall (fuel : nat) (l : list cmd) (st : state),
+  run none fuel pre_init (program l) = Some st ->
+  guard none fuel pre_init (program l) = true ->
+  spec none fuel (program l) = Some (flatten (render none st)).
+Proof. intros fuel l. exact (shows_what_was_drawn none fuel (program l)). Qed.
+Print Assumptions C19_svg_shows_what_was_drawn_before_fix.
+
 (* no document is written exactly when the specification has no value (a gridn
-   loop that does not end), for both models *)
-Theorem C19_hangs_iff_spec_undefined : forall (fx : bool) (fuel : nat) (l : list cmd),
-  run fx fuel pre_init (program l) = None <-> spec fx fuel (program l) = None.
+   loop that does not end), for every variant *)
+Theorem C19_hangs_iff_spec_undefined : forall (fx : fixes) (fuel : nat) (l : list cmd),
+  run fx fuel pre_init l = None <-> spec fx fuel l = None.
 Proof. exact hangs_iff_spec_undefined. Qed.
 Print Assumptions C19_hangs_iff_spec_undefined.
 
-(* one shape per drawing call, in order: [spec] is the concatenation, in call
-   order, of one singleton per drawing call other than gridn (and the grid lines
-   of each gridn); so without gridn there are exactly as many shapes as drawing calls *)
-Theorem C19_one_shape_per_drawing_call : forall (fx : bool) (fuel : nat) (kk : core) (c : cmd),
+(* one shape per drawing call, in order *)
+Theorem C19_one_shape_per_drawing_call : forall (fx : fixes) (fuel : nat) (kk : core) (c : cmd),
   (is_draw c = true -> is_gridn c = false -> exists sh, spec_shapes fx fuel kk c = Some [sh]) /\
   (is_draw c = false -> spec_shapes fx fuel kk c = Some []).
 Proof. intros. split; [apply spec_one_shape | apply spec_no_shape]. Qed.
 Print Assumptions C19_one_shape_per_drawing_call.
 
-Theorem C19_shape_count : forall (fx : bool) (fuel : nat) (l : list cmd) (kk : core) (out : list fshape),
+Theorem C19_shape_count : forall (fx : fixes) (fuel : nat) (l : list cmd) (kk : core) (out : list fshape),
   forallb (fun c => negb (is_gridn c)) l = true ->
   spec_from fx fuel kk l = Some out ->
   List.length out = List.length (filter is_draw l).
@@ -71,44 +80,68 @@ Proof. exact spec_count. Qed.
 Print Assumptions C19_shape_count.
 
 (* ---- gridn ---- *)
-(* Termination is proved over the ABSTRACT condition that a natural-number
-   measure of the loop variable strictly decreases in every round entered (over
-   binary64, "unit > 0" does not imply it: i + unit = i for tiny units). *)
+(* gridnFunc in force: a unit <= 0 is a BadArguments panic before the platform
+   is called; every gridn call that reaches the loop ([effective cur l]) has a
+   unit that is not <= 0 (positive, or NaN) *)
+Theorem C19_gridn_nonpositive_unit_rejected : forall (l : list cmd) (u : PrimFloat.float) (c : str),
+  (PrimFloat.leb u PrimFloat.zero = true -> wrapper_accepts cur (CGridn u c) = false) /\
+  (In (CGridn u c) (effective cur l) -> PrimFloat.leb u PrimFloat.zero = false).
+Proof.
+  intros l u c. split.
+  - exact (gridn_nonpositive_rejected cur u c eq_refl).
+  - exact (effective_units_positive cur l u c eq_refl).
+Qed.
+Print Assumptions C19_gridn_nonpositive_unit_rejected.
+
+(* Termination of the loop for a unit that reaches it, as far as provable: over
+   the ABSTRACT condition that a natural-number measure of the loop variable
+   strictly decreases in every round entered.  Over binary64 "unit > 0" does not
+   imply it (i + unit = i once unit < ulp(i)/2, e.g. unit = 1e-17 from i = 1 on),
+   so `gridn 0.000000000000000001 "red"` still does not end: that caveat stays. *)
 Theorem C19_gridn_terminates_partial : forall (unit : PrimFloat.float) (m : PrimFloat.float -> nat),
   (forall i, PrimFloat.leb i grid_bound = true -> (m (fadd i (tx unit)) < m i)%nat) ->
   exists fuel l, grid_lines fuel unit = Some l.
 Proof. exact gridn_terminates_if_measure. Qed.
 Print Assumptions C19_gridn_terminates_partial.
 
-(* "gridn terminates for every unit" is false: for unit = 0 (and -infinity) no
-   amount of fuel suffices *)
-Theorem C19_gridn_terminates_refuted :
-  exists unit : PrimFloat.float, PrimFloat.leb unit PrimFloat.zero = true /\ forall fuel, grid_lines fuel unit = None.
-Proof. exists PrimFloat.zero. split; [reflexivity | exact gridn_zero_never_ends]. Qed.
-Print Assumptions C19_gridn_terminates_refuted.
+(* regression (before 292a02f): units 0 and -infinity reached the loop, which
+   then never ends, whatever the fuel *)
+Theorem C19_gridn_never_ends_before_fix :
+  (forall c, wrapper_accepts none (CGridn PrimFloat.zero c) = true) /\
+  (forall fuel, grid_lines fuel PrimFloat.zero = None) /\
+  (forall c, wrapper_accepts none (CGridn PrimFloat.neg_infinity c) = true) /\
+  (forall fuel, grid_lines fuel PrimFloat.neg_infinity = None).
+Proof.
+  split; [reflexivity|]. split; [exact gridn_zero_never_ends|].
+  split; [reflexivity | exact gridn_neg_infinity_never_ends].
+Qed.
+Print Assumptions C19_gridn_never_ends_before_fix.
 
-Theorem C19_gridn_terminates_refuted_negative :
-  exists unit : PrimFloat.float, PrimFloat.ltb unit PrimFloat.zero = true /\ forall fuel, grid_lines fuel unit = None.
-Proof. exists PrimFloat.neg_infinity. split; [reflexivity | exact gridn_neg_infinity_never_ends]. Qed.
-Print Assumptions C19_gridn_terminates_refuted_negative.
-
-(* ---------- refutations of the unguarded statement for the code as it is ---------- *)
+(* ---------- refutations ---------- *)
 Import Floats.
-Definition shows (fx_model fx_spec : bool) (fuel : nat) (l : list cmd) : Prop :=
+Definition shows (fx_model fx_spec : fixes) (fuel : nat) (l : list cmd) : Prop :=
   exists st, run fx_model fuel pre_init (program l) = Some st /\
              spec fx_spec fuel (program l) = Some (flatten (render fx_model st)).
-Definition refutes (fx_spec : bool) (l : list cmd) : Prop :=
-  exists st, run false 100 pre_init (program l) = Some st /\
-             spec fx_spec 100 (program l) <> Some (flatten (render false st)).
+Definition refutes (fx_model fx_spec : fixes) (l : list cmd) : Prop :=
+  exists st, run fx_model 100 pre_init (program l) = Some st /\
+             spec fx_spec 100 (program l) <> Some (flatten (render fx_model st)).
 
 Local Open Scope string_scope.
 Ltac refute := eexists; split; [vm_compute; reflexivity | vm_compute; let H := fresh in (intro H; discriminate H)].
+Ltac holds := eexists; split; [vm_compute; reflexivity | vm_compute; reflexivity].
 
-(* `ellipse 50 20 10`: cy = 200 instead of 800 (guard holds: against the intended meaning) *)
+(* [cur] with exactly one more switch on: what the document would have to show
+   if only that deviation were repaired *)
+Definition cur_ellipse : fixes := mkFx true true true false false false.
+Definition cur_text : fixes := mkFx false true true true false false.
+Definition cur_baseline : fixes := mkFx false true true false true false.
+Definition cur_family : fixes := mkFx false true true false false true.
+
+(* remaining deviation 1 — `ellipse 50 20 10`: cy = 200 instead of 800 *)
 Definition second_cy (o : option (list fshape)) : float :=
   match o with Some (_ :: (GEllipse _ y _ _ _, _, _) :: _) => y | _ => 0%float end.
 Example C19_refuted_ellipse_cy_not_flipped :
-  refutes true [CEllipse 50 20 10 10 0] /\ guard 100 pre_init (program [CEllipse 50 20 10 10 0]) = true.
+  refutes cur cur_ellipse [CEllipse 50 20 10 10 0] /\ guard cur 100 pre_init (program [CEllipse 50 20 10 10 0]) = true.
 Proof.
   split; [|vm_compute; reflexivity].
   eexists; split; [vm_compute; reflexivity|]. intro H.
@@ -116,36 +149,50 @@ Proof.
   vm_compute in H. discriminate H.
 Qed.
 
-(* `color "red"` / `clear "blue"` / `width 2` / `circle 1`: the lone clear is written fill="red"
-   (guard fails: refutes even the specification with the four deviations) *)
-Example C19_refuted_lone_clear_fill_overwritten :
-  refutes false [CColor (s_ "red"); CClear (s_ "blue"); CWidth 2; CCircle 1].
+(* remaining deviation 2 — `stroke "blue"` / `fill "red"` / `text "x"`: filled and stroked blue *)
+Example C19_refuted_text_painted_with_stroke_colour :
+  refutes cur cur_text [CStroke (s_ "blue"); CFill (s_ "red"); CText (s_ "x")].
+Proof. refute. Qed.
+(* … and its guard clause: `stroke ""` / `fill "red"` / `text "x"`, the text pushed alone *)
+Example C19_refuted_lone_text_stroke_unset :
+  refutes cur cur [CStroke []; CFill (s_ "red"); CText (s_ "x")] /\
+  guard cur 100 pre_init (program [CStroke []; CFill (s_ "red"); CText (s_ "x")]) = false.
+Proof. split; [refute | vm_compute; reflexivity]. Qed.
+
+(* remaining deviation 3 — `font {baseline:"top"}` / `text "x"`: dominant-baseline="top" *)
+Example C19_refuted_font_baseline_not_mapped :
+  refutes cur cur_baseline [CFont (mkFP None None None None (Some (s_ "top")) None None); CText (s_ "x")].
 Proof. refute. Qed.
 
-(* `width 0.1` / `clear "blue"`: value equal to the default, pointer not: all attributes wiped *)
-Example C19_refuted_lone_clear_after_width :
-  refutes false [CWidth 0.1; CClear (s_ "blue")].
+(* remaining deviation 4 — `text "x"`: no font-family anywhere *)
+Example C19_refuted_default_font_family_not_written :
+  refutes cur cur_family [CText (s_ "x")].
 Proof. refute. Qed.
+
+(* ---------- regression lemmas for the repaired defects ---------- *)
+(* `color "red"` / `clear "blue"` / `width 2` / `circle 1`: before 7a67899 the lone clear was written fill="red" *)
+Example C19_lone_clear_before_fix :
+  refutes none none [CColor (s_ "red"); CClear (s_ "blue"); CWidth 2; CCircle 1] /\
+  shows cur cur 100 [CColor (s_ "red"); CClear (s_ "blue"); CWidth 2; CCircle 1].
+Proof. split; [refute | holds]. Qed.
+
+(* `width 0.1` / `clear "blue"`: value equal to the default, pointer not: all attributes were wiped *)
+Example C19_lone_clear_after_width_before_fix :
+  refutes none none [CWidth 0.1; CClear (s_ "blue")] /\ shows cur cur 100 [CWidth 0.1; CClear (s_ "blue")].
+Proof. split; [refute | holds]. Qed.
 
 (* `color "red"` / `gridn 50 "green"` / `color "blue"` *)
-Example C19_refuted_lone_grid_stroke_overwritten :
-  refutes false [CColor (s_ "red"); CGridn 50 (s_ "green"); CColor (s_ "blue")].
-Proof. refute. Qed.
+Example C19_lone_grid_before_fix :
+  refutes none none [CColor (s_ "red"); CGridn 50 (s_ "green"); CColor (s_ "blue")] /\
+  shows cur cur 100 [CColor (s_ "red"); CGridn 50 (s_ "green"); CColor (s_ "blue")].
+Proof. split; [refute | holds]. Qed.
 
-(* `stroke ""` / `fill "red"` / `text "x"`: lone text (second clause of the guard) *)
-Example C19_refuted_lone_text_stroke_unset :
-  refutes false [CStroke []; CFill (s_ "red"); CText (s_ "x")].
-Proof. refute. Qed.
-
-(* `stroke "blue"` / `fill "red"` / `text "x"`: filled and stroked blue *)
-Example C19_refuted_text_painted_with_stroke_colour :
-  refutes true [CStroke (s_ "blue"); CFill (s_ "red"); CText (s_ "x")].
-Proof. refute. Qed.
-
-(* `font {baseline:"top"}` / `text "x"`: dominant-baseline="top" *)
-Example C19_refuted_font_baseline_not_mapped :
-  refutes true [CFont (mkFP None None None None (Some (s_ "top")) None None); CText (s_ "x")].
-Proof. refute. Qed.
+(* `circle 1` / `gridn 0 "red"` / `circle 2`: with the check in force only the first circle reaches the platform *)
+Example C19_gridn_zero_rejected :
+  effective cur [CCircle 1; CGridn 0 (s_ "red"); CCircle 2] = [CCircle 1] /\
+  rejected cur [CCircle 1; CGridn 0 (s_ "red"); CCircle 2] = true /\
+  effective none [CCircle 1; CGridn 0 (s_ "red"); CCircle 2] = [CCircle 1; CGridn 0 (s_ "red"); CCircle 2].
+Proof. vm_compute. repeat split; reflexivity. Qed.
 
 (* ---------- non-vacuity ---------- *)
 Definition sample : list cmd :=
@@ -154,36 +201,41 @@ Definition sample : list cmd :=
    CFill (s_ "none"); CFont (mkFP (Some (s_ "serif")) (Some 4%float) None None None (Some (s_ "center")) None);
    CClear (s_ "blue"); CRect 1 1; CStroke (s_ "blue"); CText (s_ "<b>&")].
 
-(* hypotheses of the as-is theorem hold on a history with groups, a grid, text *)
-Example C19_ex_asis_hypotheses :
-  guard 100 pre_init (program sample) = true /\ shows false false 100 sample /\
-  (exists out, spec false 100 (program sample) = Some out /\ List.length out = 14%nat).
+Example C19_ex_hypotheses :
+  guard cur 100 pre_init (program sample) = true /\ shows cur cur 100 sample /\
+  (exists out, spec cur 100 (program sample) = Some out /\ List.length out = 14%nat).
 Proof.
   split; [vm_compute; reflexivity|].
   split; (eexists; split; [vm_compute; reflexivity | vm_compute; reflexivity]).
 Qed.
 
-Example C19_ex_fixed : shows true true 100 sample.
-Proof. eexists; split; [vm_compute; reflexivity | vm_compute; reflexivity]. Qed.
+Example C19_ex_fixed : shows all all 100 sample.
+Proof. holds. Qed.
 
-(* hypotheses of the guarded theorem *)
+Example C19_ex_before_fix_hypotheses : guard none 100 pre_init (program sample) = true /\ shows none none 100 sample.
+Proof. split; [vm_compute; reflexivity | holds]. Qed.
+
 Example C19_ex_guarded_hypotheses :
-  let l := [CMove 20 0; CRect 10 30; CColor (s_ "red"); CCircle 10; CGridn 50 (s_ "gray"); CWidth 2; CLine 1 1] in
-  guard 100 pre_init (program l) = true /\ forallb no_dev l = true /\ shows false true 100 l.
-Proof.
-  split; [vm_compute; reflexivity|]. split; [vm_compute; reflexivity|].
-  eexists; split; [vm_compute; reflexivity | vm_compute; reflexivity].
-Qed.
+  let l := [CMove 20 0; CRect 10 30; CColor (s_ "red"); CClear (s_ "blue"); CWidth 2; CGridn 50 (s_ "gray"); CStroke (s_ "x"); CLine 1 1] in
+  forallb no_dev l = true /\ shows cur all 100 l.
+Proof. split; [vm_compute; reflexivity | holds]. Qed.
 
-(* the measure hypothesis is satisfiable: gridn (0/0) *)
+(* the measure hypothesis is satisfiable: gridn (0/0) and gridn (1/0) *)
 Example C19_ex_gridn_nan_terminates : exists fuel l, grid_lines fuel nan = Some l.
 Proof.
   apply (gridn_terminates_if_measure nan (fun x => if PrimFloat.leb x grid_bound then 1 else 0)%nat).
   exact nan_measure.
 Qed.
+Example C19_ex_gridn_infinity_terminates : exists fuel l, grid_lines fuel infinity = Some l.
+Proof.
+  apply (gridn_terminates_if_measure infinity (fun x => if PrimFloat.leb x grid_bound then 1 else 0)%nat).
+  exact infinity_measure.
+Qed.
 
-(* bounded facts (not theorems about all fuel): the usual units end, a negative finite unit does not end within 2000 rounds *)
+(* bounded facts (not theorems about all fuel): the usual units end; a tiny positive
+   unit, which the check in force lets through, does not end within 2000 rounds *)
 Example C19_ex_grid_default : exists l, grid_lines 102 10 = Some l /\ List.length l = 22%nat.
 Proof. eexists; split; [vm_compute; reflexivity | vm_compute; reflexivity]. Qed.
-Example C19_ex_grid_negative_bounded : grid_lines 2000 (-1) = None.
-Proof. vm_compute. reflexivity. Qed.
+Example C19_ex_grid_tiny_positive_bounded :
+  wrapper_accepts cur (CGridn 1e-17 (s_ "red")) = true /\ grid_lines 2000 1e-17 = None.
+Proof. vm_compute. split; reflexivity. Qed.
